@@ -88,13 +88,14 @@ Section C04.
       destruct (C04_strict_text_only _ _ Hit) as (d & ->). cbn [render_item] in Hc.
       destruct (escape_inert d c Hc) as (H1 & H2 & _). auto.
     - intros t Hin. pose proof (C01_output_tokens smatcher unit unit I strict (strict_plain I) s t Hin) as H.
-      destruct t as [d|n a|n|n a|d|d]; try contradiction; eauto; rewrite (strict_nothing I) in H; discriminate.
+      destruct t as [d|n a|n|n a|d|d]; try contradiction; eauto; try (rewrite (strict_nothing I) in H; discriminate).
+      rewrite strict_no_comments in H. discriminate.
   Qed.
 
   Theorem C04_strict_idempotent : forall s,
     sanitize_bytes I strict (sanitize_bytes I strict s) = sanitize_bytes I strict s.
   Proof.
-    apply (sanitize_idempotent I strict (strict_plain I)).
+    apply (sanitize_idempotent I strict (strict_plain I) strict_no_comments).
     intros n a aps Hp. pose proof (element_policies_allowed I strict n) as E.
     rewrite (strict_nothing I), Hp in E. discriminate.
   Qed.
@@ -229,6 +230,7 @@ Section C04.
     - destruct H as (_ & Hal & _). exact (P n Hal).
     - destruct H as (Hal & _ & a0 & aps & _ & Hp & -> & _). destruct (P n Hal) as [P1 P2].
       split; [exact P1|]. split; [exact P2|]. intros kv Hkv. eapply ugc_attr; [apply ugc_element_policies; exact Hp | exact Hkv].
+    - destruct H as (Hc & _). rewrite ugc_no_comments in Hc. discriminate.
   Qed.
 
   (* the converse: canonical documents in the vocabulary are returned byte for byte *)
